@@ -607,11 +607,11 @@ func checkSourceOrder(w *World, r *Result) {
 	info := fi.Pkg.TypesInfo
 	// objs collected in a loop, then sort.Slice(objs, by Pos), then used
 	var sortCall *ast.CallExpr
+	var spec *sortSpec
 	ast.Inspect(fi.Decl.Body, func(x ast.Node) bool {
 		if call, ok := x.(*ast.CallExpr); ok {
-			f := fullName(calleeOf(info, call))
-			if (f == "sort.Slice" || f == "sort.SliceStable") && len(call.Args) == 2 {
-				sortCall = call
+			if sp := sortSpecOf(info, fi, call); sp != nil && sp.key != "$e" {
+				sortCall, spec = call, sp
 			}
 		}
 		return true
@@ -620,19 +620,8 @@ func checkSourceOrder(w *World, r *Result) {
 		r.bad("PTH-C12d", fi.Name, "source order", fnPos(w, fi), "the collected declarations are no longer sorted by position: Source is in name order, not source order")
 		return
 	}
-	fl, _ := sortCall.Args[1].(*ast.FuncLit)
-	good := false
-	if fl != nil && len(fl.Body.List) == 1 {
-		if ret, ok := fl.Body.List[0].(*ast.ReturnStmt); ok && len(ret.Results) == 1 {
-			if be, ok := ret.Results[0].(*ast.BinaryExpr); ok && be.Op == token.LSS {
-				l, rr := es(be.X), es(be.Y)
-				pi := fl.Type.Params.List[0].Names
-				if strings.HasSuffix(l, ".Pos()") && strings.HasSuffix(rr, ".Pos()") && l != rr && len(pi) > 0 && strings.Contains(l, "["+pi[0].Name+"]") {
-					good = true
-				}
-			}
-		}
-	}
+	// whatever the sorting API: elements compared by their Pos(), increasing
+	good := spec.key == "$e.Pos()" && spec.asc
 	r.cond(good, "PTH-C12d", fi.Name, "Source sorted by increasing Pos()", w.Pos(sortCall.Pos()), "objs[i].Pos() < objs[j].Pos() (all objects are declared in the one source file, so positions compare as source order)", "the comparator is not increasing declaration position")
 	// the sorted slice is what feeds Source: a later loop ranges over it in order
 	sorted := es(sortCall.Args[0])
